@@ -77,6 +77,32 @@ def check_conformance(data, proto):
         return "stack discipline: %s" % e
     return None
 
+def insn_table_mismatch(data, prog_tokens):
+    """tie of Model/Insn.v to pickletools: prog_tokens = the model's 'asmhex:iproto:need:delta'
+    entries for this very byte string; every entry must be one pickletools instruction with the
+    same bytes, the same introducing protocol and the same stack effect.  None if all agree."""
+    try:
+        l = list(pickletools.genops(data))
+    except Exception as e:
+        return "pickletools cannot scan the bytes: %s" % e
+    if len(l) != len(prog_tokens):
+        return "instruction count: pickletools %d, model program %d" % (len(l), len(prog_tokens))
+    bounds = [pos for _, _, pos in l] + [len(data)]
+    for k, ((op, arg, pos), tok) in enumerate(zip(l, prog_tokens)):
+        hx, pr, need, delta = tok.split(":")
+        if data[bounds[k]:bounds[k + 1]].hex() != hx:
+            return "instruction %d (%s): bytes %s, model asm %s" % (k, op.name, data[bounds[k]:bounds[k + 1]].hex()[:60], hx[:60])
+        if op.proto != int(pr):
+            return "instruction %s: pickletools protocol %d, Insn.iproto %s" % (op.name, op.proto, pr)
+        before, after = op.stack_before, op.stack_after
+        if pickletools.markobject in before:
+            want = ("mark", str(1 + len(after)))
+        else:
+            want = (str(len(before)), str(len(after) - len(before)))
+        if (need, delta) != want:
+            return "instruction %s: pickletools stack effect %s, Insn.sd_step %s" % (op.name, want, (need, delta))
+    return None
+
 def canon(data):
     """bytes with MARK..DICT entries sorted; falls back to the raw bytes when an opcode outside
     the encoder's repertoire appears"""
